@@ -945,7 +945,10 @@ class C20(Check):
                     rng.shuffle(two)
                     scheds = one + two[:200]
                 if tier == "thorough":
-                    scheds += [random_schedule(rng, L, nt, 3) for _ in range(400)]
+                    if idx == 1:
+                        scheds = schedules_n(L, 2, 3)         # every schedule with <= 3 preemptions
+                    else:
+                        scheds += [random_schedule(rng, L, nt, 3) for _ in range(400)]
             else:
                 scheds = []
                 if nt == 2:
@@ -1191,7 +1194,7 @@ class C20(Check):
         ev["coverage"]["exhaustive_part"] = (
             "every schedule with <= 2 preemptions at shared-state lines, 2 threads x 1 full call, for the first "
             + ("4 base declarations; <= 150 of them for each 2-thread registry program (quick)" if tier == "quick" else
-               f"{len(BASE_PROGS)} base declarations, and with 3 threads for 2 of them; <= 150 for each 2-thread registry program (thorough)"))
+               f"{len(BASE_PROGS)} base declarations, <= 3 preemptions for one of them, and with 3 threads (<= 2 preemptions) for 2 of them; <= 150 for each 2-thread registry program (thorough)"))
 
 
 CHECK = C20()
